@@ -30,8 +30,8 @@ type GenOpts struct {
 
 	// Want, when set, is consulted each time the generator has drawn that it
 	// wants one of the optional features "li-p", "li-trailing", "tfoot",
-	// "spans", "chrome-in-leaf", "nested-table", "a-block",
-	// "headerless-table"; returning false vetoes that
+	// "spans", "first-row-colspan", "chrome-in-leaf", "nested-table",
+	// "a-block", "headerless-table"; returning false vetoes that
 	// single use (the harness passes vr.Want to switch off features tied to a
 	// known finding while counting the vetoed draws).
 	Want func(feature string, drawn bool) bool `json:"-"`
@@ -277,7 +277,10 @@ func (g *gen) list(c ctx, level int) *Node {
 		li := g.el("li")
 		switch {
 		case g.want("li-p", g.o.LiP, g.chance(6, "li-p")):
-			li.Kids = []*Node{g.el("p", g.inline()...)}
+			if g.bool("li-text-then-p") {
+				li.Kids = g.inline()
+			}
+			li.Kids = append(li.Kids, g.el("p", g.inline()...))
 			if g.bool("li-p2") {
 				li.Kids = append(li.Kids, g.el("p", g.inline()...))
 			}
@@ -287,6 +290,9 @@ func (g *gen) list(c ctx, level int) *Node {
 			li.Kids = g.inline()
 		}
 		if level < 3 && g.chance(3, "nest") {
+			if g.chance(5, "li-only-nested") {
+				li.Kids = nil // <li><ul>…</ul></li>: an item that is only a sub-list
+			}
 			li.Kids = append(li.Kids, g.list(c, level+1))
 			if g.want("li-trailing", g.o.LiTrailing, g.chance(5, "li-trailing")) {
 				li.Kids = append(li.Kids, g.text())
@@ -364,6 +370,10 @@ func (g *gen) table(c ctx) *Node {
 						for cs < 3 && col+cs < cols && !occ[r][col+cs] && g.bool("cs+") {
 							cs++
 						}
+						// a colspan in the very first row makes later rows longer than the first
+						if cs > 1 && len(t.Kids) == 0 && r == 0 && !g.want("first-row-colspan", true, true) {
+							cs = 1
+						}
 					} else { // column 0 never row-spans: every row keeps an anchored cell
 						rs = 2
 						for rs < 3 && r+rs < sp.rows && g.bool("rs+") {
@@ -382,7 +392,11 @@ func (g *gen) table(c ctx) *Node {
 				if rs > 1 {
 					cell.Attr = append(cell.Attr, Attr{K: "rowspan", V: fmt.Sprint(rs), Q: uint8(g.int(0, 3, "q"))})
 				}
-				cell.Kids = g.cellContent(c)
+				if g.chance(12, "empty-cell") && len(tr.Kids) > 0 {
+					cell.Kids = nil // an empty cell
+				} else {
+					cell.Kids = g.cellContent(c)
+				}
 				if g.o.Vocab && g.chance(12, "cell-attr") {
 					g.classID(cell)
 				}
